@@ -8,11 +8,11 @@ mkdir -p examples; for f in OUT/*.rs; do [ -f "$f" ] && cp "$f" examples/; done
 demo=$(ls OUT/*.rs 2>/dev/null | head -1); demo=$(basename "${demo%.rs}")
 export CARGO_NET_OFFLINE=true
 if [ -n "$demo" ]; then run="cargo run --offline --quiet --example $demo"; else sh=$(ls OUT/*.sh | head -1); demo=$(basename "$sh"); mkdir -p examples; cp "$sh" examples/; run="eval cargo build --offline --quiet 2>/dev/null; bash examples/$demo"; fi
-$run > /tmp/confirm_clean.log 2>&1; clean=$?
+$run > /tmp/confirm_clean_$id.log 2>&1; clean=$?
 git apply OUT/patch.diff || { echo "patch does not apply"; exit 9; }
-cargo test --offline > /tmp/confirm_test.log 2>&1; t=$?
-passed=$(grep -c "test result: ok. 35 passed" /tmp/confirm_test.log)
-$run > /tmp/confirm_patched.log 2>&1; patched=$?
+cargo test --offline > /tmp/confirm_test_$id.log 2>&1; t=$?
+passed=$(grep -c "test result: ok. 35 passed" /tmp/confirm_test_$id.log)
+$run > /tmp/confirm_patched_$id.log 2>&1; patched=$?
 git checkout -q -- src docs Solstat.toml README.md 2>/dev/null
 echo "seed $id: demo on clean tree exit=$clean ; tests with patch exit=$t (35-passed lines: $passed) ; demo with patch exit=$patched"
 if [ $clean -eq 0 ] && [ $t -eq 0 ] && [ "$passed" -ge 2 ] && [ $patched -ne 0 ]; then
@@ -30,5 +30,5 @@ json.dump({'id':id,'breaks_property':prop,'needs_to_manifest':'see NOTES.md (wri
 PY
   echo CONFIRMED
 else
-  echo "NOT CONFIRMED"; tail -5 /tmp/confirm_clean.log /tmp/confirm_patched.log
+  echo "NOT CONFIRMED"; tail -5 /tmp/confirm_clean_$id.log /tmp/confirm_patched_$id.log
 fi
